@@ -582,6 +582,100 @@ def f(v, minsd):
 """, must=["np.insert(", "[0:-1]", "sdj[1:2] = 1"], must_not=["np.roll"])
 
 
+# --- benign-6 forms ------------------------------------------------------------------------------------------------------------------
+case("record read field by field", """
+_Rec = namedtuple("_Rec", ["a", "b"])
+def f(x, y):
+    r = _Rec(x + 1, b=y)
+    return r.a * r.b
+""", must=["(x + 1) * y"], must_not=["_Rec("])
+case("record: NOT when it is passed on", """
+_Rec2 = namedtuple("_Rec2", "a b")
+def f(x, y, g):
+    r = _Rec2(x, y)
+    g(r)
+    return r.a
+""", must=["_Rec2(x, y)"])
+case("record from a starred call", """
+_Rec3 = namedtuple("_Rec3", ["S", "m"])
+def f(self, x):
+    r = _Rec3(*self.sjm(x))
+    return r.m
+""", must=["self.sjm(x)[1]"], must_not=["_Rec3("])
+case("callable object is its lambda", """
+class _Key:
+    def __init__(self, order):
+        self.order = order
+    def __call__(self, card):
+        return self.order[card.id]["k"]
+def f(xs, order):
+    xs.sort(key=_Key(order))
+""", must=["key=lambda card: order[card.id]['k']"], must_not=["_Key("])
+case("callable object: NOT with other methods", """
+class _Key2:
+    def __init__(self, order):
+        self.order = order
+    def __call__(self, card):
+        return self.order[card.id]
+    def reset(self):
+        self.order = {}
+def f(xs, order):
+    xs.sort(key=_Key2(order))
+""", must=["_Key2(order)"])
+case("beta reduction through a helper", """
+def _each(xs, draw):
+    for x in xs:
+        x.n = draw()
+    return True
+def f(xs, prng):
+    return _each(xs, lambda: h(prng.next()))
+""", must=["x__h", ".n = h(prng.next())"], must_not=["draw"])
+case("list(map(F, X))", """
+def f(xs):
+    return list(map(itemgetter(0), sorted(xs)))
+""", must=["[_em[0] for _em in sorted(xs)]"])
+case("debug raise is assert", """
+def f(a, b):
+    if __debug__:
+        if not len(a) == len(b):
+            raise AssertionError("differ")
+    return a
+""", must=["assert len(a) == len(b), 'differ'"])
+case("try / except AttributeError is getattr", """
+def f(self):
+    try:
+        p = self.rate
+    except AttributeError:
+        p = 0.1
+    return p * 2
+""", must=["getattr(self, 'rate', 0.1) * 2"])
+case("try / except: NOT for another exception", """
+def f(self):
+    try:
+        p = self.rate
+    except KeyError:
+        p = 0.1
+    return p
+""", must=["except KeyError"])
+case("dict(zip(map(f, S[lo:]), range(a, len(S) - k)))", """
+def f(c):
+    return dict(zip(map(str, c[2:]), range(1, len(c) - 1)))
+""", must=["{str(c[_jz]): _jz - 1 for _jz in range(2, len(c))}"])
+case("dict(zip(..)): NOT when the lengths differ", """
+def f(c):
+    return dict(zip(map(str, c[2:]), range(1, len(c))))
+""", must=["dict(zip("])
+case("helper result renamed into the target", """
+def _make(n):
+    out = []
+    for i in range(n):
+        out.append(i)
+    return out
+def f(n):
+    xs = _make(n)
+    return xs
+""", must=["for i__h", "in range(n)]"], must_not=["out__h", "_make("])
+
 def _spec_case():
     """keyword-only defaults nobody passes: specialised; one that is passed somewhere: left alone"""
     import ast as _a, textwrap as _t
